@@ -1521,6 +1521,7 @@ class Generator:
         self.t = 0
         self.stalled = {}
         self.push_deadline = {}
+        self.draining = False
 
     def faults_on(self):
         q = self.sim.cfg.get("quiet_after_events")
@@ -1577,8 +1578,47 @@ class Generator:
             if self.t > horizon:
                 break
             getattr(self, "h_" + kind)(data)
+        self.drain()
         sim.virtual_ms = self.t
         sim.finish()
+
+    def converged(self):
+        sim = self.sim
+        a = sim.auth
+        if not a.up:
+            return False
+        for c in sim.clients.values():
+            if not (c.up and c.joined and not c.unconfirmed and c.version == a.version):
+                return False
+            if tk.own_digest(c.doc) != tk.own_digest(a.doc):
+                return False
+        return True
+
+    def drain(self):
+        """bounded liveness (diagnostic): faults have stopped and nobody edits any more; within a
+        bounded number of further events every client must have its steps confirmed and hold the
+        authority's document"""
+        sim = self.sim
+        if not sim.cfg.get("drain"):
+            return
+        self.draining = True
+        sim.cfg["quiet_after_events"] = 0
+        sim.partitioned = set()
+        self.stalled.clear()
+        start = self.eid
+        cap = sim.cfg.get("drain_events", 1500)
+        while self.heap and self.eid - start < cap:
+            if self.converged():
+                break
+            t, _, kind, data = heapq.heappop(self.heap)
+            self.t = max(self.t, t)
+            getattr(self, "h_" + kind)(data)
+        ok = self.converged()
+        sim.stats["drain.converged" if ok else "drain.not_converged"] += 1
+        sim.stats["drain.events"] += self.eid - start
+        sim.drain_events = self.eid - start
+        if not ok:
+            sim.diag("not_converged_after_drain")
 
     # ---- heap handlers
     def h_start(self, cid):
@@ -1830,12 +1870,19 @@ class Generator:
         if c.unconfirmed:
             dl = self.push_deadline.get(cid)
             if dl is None or self.t >= dl:
-                if rng.random() < cfg.get("push_p", 0.5):
+                if self.draining or rng.random() < cfg.get("push_p", 0.5):
                     self.push_deadline[cid] = self.t + cfg.get("retry_ms", 150)
                     self.emit({"k": "push", "c": cid})
                     return
         else:
             self.push_deadline.pop(cid, None)
+        if self.draining:
+            # nothing to send: poll now and then for missed broadcasts; otherwise wait for the ack
+            if not c.unconfirmed and rng.random() < 0.15:
+                self.emit({"k": "pull", "c": cid})
+            elif c.unconfirmed and rng.random() < 0.03:
+                self.emit({"k": "pull", "c": cid})
+            return
         if rng.random() < cfg.get("pull_p", 0.05):
             self.emit({"k": "pull", "c": cid})
             return
